@@ -22,3 +22,16 @@ Theorem C06_pair_screen_additive : forall L mask noType1 t1 (t2 : nat -> Z -> R)
            (Rsum (map (fun l => if mask l then 0%R else t2_l t2 l) (seq 0 L))).
 Proof. exact pair_screen_additive. Qed.
 Print Assumptions C06_pair_screen_additive.
+
+(* the primitive estimate (model of RadialIntegral::estimate_type2, tied to radial_quad.cpp by a tight correspondence on
+   every run): its evaluation point is the non-negative stationary point of the envelope r^c0 exp(-p r^2 + c1 r), and the
+   estimate is the same for both orders of the two shells *)
+From LV Require Import Radial.EstimateModel Radial.EstimateProofs.
+Theorem C06_est_point_stationary : forall c0 c1 p, (0 < p)%R -> (0 <= c0)%R -> (0 <= c1)%R ->
+  let P := est_point ROps c0 c1 p in (2 * p * P * P - c1 * P - c0 = 0 /\ 0 <= P /\ c1 / (2 * p) <= P)%R.
+Proof. exact est_point_stationary. Qed.
+Print Assumptions C06_est_point_stationary.
+Theorem C06_prim_estimate_swap : forall pi_ erf Ntab lMax Kt fl N l1 l2 n a b A B,
+  prim_estimate ROps pi_ erf Ntab lMax Kt fl N l1 l2 n a b A B = prim_estimate ROps pi_ erf Ntab lMax Kt fl N l2 l1 n b a B A.
+Proof. exact prim_estimate_swap. Qed.
+Print Assumptions C06_prim_estimate_swap.
